@@ -70,6 +70,16 @@ def suite_codecs(ctx):
             chk('DataFormatIdentifier.accept', b, d, 'accepted')
         else:
             chk('DataFormatIdentifier.reencode', b, (d.get_byte_as_int(), d.compression, d.encryption), (b, b >> 4, b & 0xF))
+    # the two spellings of a byte (an int, a one-byte bytes object) decode alike: same acceptance, same re-encoding
+    for name, dec in (('Status', Dtc.Status.from_byte), ('Severity', Dtc.Severity.from_byte), ('DtcClass', Dtc.DtcClass.from_byte),
+                      ('CommunicationType', CommunicationType.from_byte), ('DataFormatIdentifier', DataFormatIdentifier.from_byte)):
+        import inspect
+        if 'bytes' not in str(inspect.signature(dec)):
+            continue            # this decoder is declared for integers only
+        for b in range(256):
+            as_int = safe(lambda: dec(b).get_byte_as_int())
+            as_bytes = safe(lambda: dec(bytes([b])).get_byte_as_int())
+            chk(name + '.from_byte(bytes)', b, as_bytes, as_int)
     # decoding is a function of the byte alone: what a caller did to an earlier result (the objects are mutable: flags are set on a decoded
     # status before it is sent back, availability masks are edited) must not show in the next decode of the same byte
     def scramble(obj, depth=0):
